@@ -23,7 +23,7 @@ TABLE = {
     "b": {"d1": ("int", 0, 4, False, 1), "d2": ("int", 0, 8, False, 1), "d3": ("int", 0, 8, False, 2)},
     "c": {"d1": ("float", 1.0, 2.0, True, None), "d2": ("float", 1.0, 3.0, True, None),
           "d3": ("float", 1.0, 4.0, True, None)},
-    "k": {"d1": ("cat", ("p", "q"))},
+    "k": {"d1": ("cat", ("p", "nan!", "q"))},     # "nan!" = a NEW float("nan") object every time the distribution is built
 }
 VALUE = {"a": 0.5, "b": 4, "c": 1.5, "k": "p"}  # contained in every distribution of the name
 FINISHED = ("COMPLETE", "PRUNED", "FAIL")
@@ -38,7 +38,11 @@ def _dist(name, tok):
         return FloatDistribution(d[1], d[2], log=d[3], step=d[4])
     if d[0] == "int":
         return IntDistribution(d[1], d[2], log=d[3], step=d[4])
-    return CategoricalDistribution(d[1])
+    return CategoricalDistribution(_choices(d[1]))
+
+
+def _choices(cs):
+    return tuple(float("nan") if c == "nan!" else c for c in cs)
 
 
 def _suggest(trial, name, tok):
@@ -48,7 +52,7 @@ def _suggest(trial, name, tok):
     elif d[0] == "int":
         trial.suggest_int(name, d[1], d[2], log=d[3], step=d[4])
     else:
-        trial.suggest_categorical(name, list(d[1]))
+        trial.suggest_categorical(name, list(_choices(d[1])))
 
 
 def _tokens(space: dict) -> list:
